@@ -16,7 +16,7 @@ import os
 import sys
 import contextlib
 
-UNIVERSE_TOPS = ["pa", "pb", "pc", "pd", "vt_trace"]
+UNIVERSE_TOPS = ["pa", "pb", "pc", "pd", "Pq", "vt_trace"]
 
 _FILES = {
     "vt_trace.py": '''
@@ -100,6 +100,13 @@ n = 5
 import vt_trace as _t
 @_t.named("pc.sub.deep.d")
 def d(*a): return _t.call("pc.sub.deep.d", a)
+''',
+    # a capitalised module name: sorts before "__future__" and before every lower-case name
+    "Pq.py": '''
+import vt_trace as _t
+@_t.named("Pq.zf")
+def zf(*a): return _t.call("Pq.zf", a)
+ZK = 7
 ''',
     "pd.py": '''
 import vt_trace as _t
@@ -202,6 +209,9 @@ IMPORT_FORMS = [
     ("from pd import *", {"sa": "fn", "sb": "fn"}),
     ("import pa, pb", {"pa": "mod:pa", "pb": "mod:pb"}),
     ("from pa import (f,\n    g as g2)", {"f": "fn", "g2": "fn"}),
+    ("import Pq", {"Pq": "mod:Pq"}),
+    ("from Pq import zf", {"zf": "fn"}),
+    ("from Pq import ZK, zf as f", {"ZK": "int", "f": "fn"}),
 ]
 
 MOD_ATTRS = {
@@ -211,6 +221,7 @@ MOD_ATTRS = {
     "pa.s1": (["f", "h"], ["V"], []),
     "pa.s2": (["g"], ["W"], []),
     "pc.sub.deep": (["d"], [], []),
+    "Pq": (["zf"], ["ZK"], []),
 }
 
 
@@ -340,6 +351,20 @@ def gen_program(rng, missing_names=None, max_stmts=8, allow_nested_imports=True)
                 if "*" not in stmt:
                     body.append("    " + stmt.replace("\n", "\n    "))
                     body_env.update(binds)
+            late = None
+            if rng.random() < 0.2:
+                # the body reads a name that is imported at module level only after the def (the function runs at the end)
+                stmt, binds = rng.choice(IMPORT_FORMS)
+                if "*" not in stmt:
+                    late = (stmt, binds)
+                    body_env.update(binds)
+            rq = rng.random()
+            if rq < 0.15:
+                body.append("    key = lambda t: t")
+            elif rq < 0.3:
+                body.append("    def inner(t):\n        return t")
+            elif rq < 0.36:
+                body.append("    class Loc:\n        z = 0")
             body.append("    return %s" % gen_expr(body_env, rng))
             deco = ""
             if rng.random() < 0.15 and _callable_exprs(uenv, rng):
@@ -366,6 +391,9 @@ def gen_program(rng, missing_names=None, max_stmts=8, allow_nested_imports=True)
             lines.append("def %s(%s):\n%s" % (fname, default, "\n".join(body)))
             funcs.append(fname)
             env[fname] = "localfn"
+            if late:
+                lines.append(late[0])
+                env.update(late[1])
         elif r < 0.90:
             cname = "K%d" % len(lines)
             attr = gen_expr(uenv, rng)
